@@ -91,11 +91,22 @@ def settle_far(case: dict, far_place, far_post) -> dict:
     case = copy.deepcopy(case)
     holder = case if "r" in case else case["sketch"]
     ratio = sum(f["ratio"] for f in fars)
-    holder["r"] = min(holder["r"], math.sqrt(FAR_LIMIT / ratio))
+    grow = 1.0  # later scalings enlarge the shape at its far position
+    for key in ("pre", "post"):
+        if case.get(key) is not None and case[key].get("scale"):
+            grow *= max(1.0, case[key]["scale"])
+    holder["r"] = min(holder["r"], math.sqrt(FAR_LIMIT / (ratio * grow)))
     r = holder["r"]
     if far_place is not None:
         case["place"]["o"] = (rm.unit(far_place["dir"]) * far_place["ratio"] * r).tolist()
         case["place"]["far"] = far_place["ratio"]
+        for key in ("post", "pre"):
+            # rotation and scaling origins stay within a few sizes of the shape (a scaling about the world origin would
+            # multiply the far offset by the ratio and leave the domain capped by FAR_LIMIT)
+            if case.get(key) is not None:
+                for okey in ("origin", "sorigin"):
+                    if okey in case[key]:
+                        case[key][okey] = (np.array(case["place"]["o"]) + np.array(case[key][okey])).tolist()
     if far_post is not None:
         case["post"]["t"] = (rm.unit(far_post["dir"]) * far_post["ratio"] * r).tolist()
         case["post"]["far"] = far_post["ratio"]
@@ -149,9 +160,13 @@ class Circle:
         # The library drops an arc whose three points are collinear within TOL = 1e-7 (|arm x arm| <= TOL).  With the
         # segment angle `seg` the cross product is 4 r^2 sin^2(seg/4) sin(seg/2); within 10x of TOL either outcome is
         # accepted.
-        self.droppable = False
-        if seg is not None:
-            self.droppable = 4 * self.r**2 * math.sin(abs(seg) / 4) ** 2 * math.sin(abs(seg) / 2) < 1e-6
+        self.seg = seg
+
+    @property
+    def droppable(self) -> bool:
+        if self.seg is None:
+            return False
+        return 4 * self.r**2 * math.sin(abs(self.seg) / 4) ** 2 * math.sin(abs(self.seg) / 2) < 1e-6
 
     def has(self, p, tol_scale: float = 1.0) -> bool:
         d = np.asarray(p, float) - self.c
@@ -175,19 +190,23 @@ class Spec:
         self.revolves: List[Tuple[np.ndarray, np.ndarray, float]] = []
 
     def transform(self, P: np.ndarray) -> None:
-        """maps the ground truth with the rigid map P (the entities are moved separately, by the library)"""
+        """maps the ground truth with the similarity P = rigid motion x uniform scaling (the entities are moved
+        separately, by the library)"""
+        k = float(np.cbrt(np.linalg.det(P[:3, :3])))
+        udir = lambda v: rm.unit(rm.apply_dir(P, v))  # noqa: E731
         for c in self.circles:
-            c.c, c.n = rm.apply(P, c.c), rm.apply_dir(P, c.n)
-        self.revolves = [(rm.apply(P, o), rm.apply_dir(P, a), ang) for o, a, ang in self.revolves]
+            c.c, c.n, c.r = rm.apply(P, c.c), udir(c.n), c.r * k
+        self.revolves = [(rm.apply(P, o), udir(a), ang) for o, a, ang in self.revolves]
+        self.size *= k
         ex = self.extra
         if "sphere" in ex:
-            ex["sphere"] = (rm.apply(P, ex["sphere"][0]), ex["sphere"][1])
+            ex["sphere"] = (rm.apply(P, ex["sphere"][0]), ex["sphere"][1] * k)
         if "corners" in ex:
             ex["corners"] = [rm.apply(P, q) for q in ex["corners"]]
         if "ends" in ex:
-            ex["ends"] = [(rm.apply(P, c), rm.apply_dir(P, n), r) for c, n, r in ex["ends"]]
+            ex["ends"] = [(rm.apply(P, c), udir(n), r * k) for c, n, r in ex["ends"]]
         if "axis" in ex:
-            ex["axis"] = (rm.apply(P, ex["axis"][0]), rm.apply_dir(P, ex["axis"][1]))
+            ex["axis"] = (rm.apply(P, ex["axis"][0]), udir(ex["axis"][1]))
         if "outer_pts" in ex:
             ex["outer_pts"] = [rm.apply(P, q) for q in ex["outer_pts"]]
         if "maps" in ex:
@@ -196,30 +215,47 @@ class Spec:
 
 
 @st.composite
-def post_transforms(draw):
-    """None, or a rigid motion applied to the *built* entity with the library's rotate / translate: rotation about a
-    general axis through a general origin (never parallel to a coordinate axis), then a translation"""
-    if draw(st.sampled_from([True, False])):
+def post_transforms(draw, resize_mostly: bool = False):
+    """None, or a motion applied to the *built* entity with the library's rotate / scale / translate: rotation about a
+    general axis through a general origin (never parallel to a coordinate axis), in half of the cases a uniform scaling
+    by 0.3 .. 3 about another general origin, then a translation"""
+    # resize_mostly (start shapes of chains): absent 1 in 3, scaled 3 in 4 of the rest
+    if draw(st.sampled_from([False, False, True] if resize_mostly else [True, False])):
         return None
     k = draw(st.integers(0, 2))
     ax = [draw(st.floats(0.15, 1.0)) * draw(st.sampled_from([-1.0, 1.0])) for _ in range(3)]
     ax[k] = draw(st.sampled_from([-1.0, 1.0]))
-    return {
+    post = {
         "axis": ax,
         "angle": draw(st.floats(0.2, math.pi - 0.2)) * draw(st.sampled_from([-1.0, 1.0])),
         "origin": [draw(st.floats(-5.0, 5.0)) for _ in range(3)],
         "t": [draw(st.floats(-5.0, 5.0)) for _ in range(3)],
+        "scale": None,
     }
+    if draw(st.sampled_from([True, True, True, False] if resize_mostly else [True, False])):
+        # 0.33 .. 0.85 or 1.18 .. 3: never (nearly) 1
+        post["scale"] = 3.0 ** (draw(st.floats(0.15, 1.0)) * draw(st.sampled_from([1.0, -1.0])))
+        post["sorigin"] = [draw(st.floats(-5.0, 5.0)) for _ in range(3)]
+    return post
 
 
 def post_matrix(post) -> np.ndarray:
     if post is None:
         return np.eye(4)
-    return rm.m_translate(post["t"]) @ rm.m_rotate(post["angle"], post["axis"], post["origin"])
+    P = rm.m_rotate(post["angle"], post["axis"], post["origin"])
+    if post.get("scale"):
+        P = rm.m_scale(post["scale"], post["sorigin"]) @ P
+    return rm.m_translate(post["t"]) @ P
+
+
+def post_scale(post) -> float:
+    return float(post["scale"]) if post is not None and post.get("scale") else 1.0
 
 
 def move_entity(entity, post) -> None:
     entity.rotate(post["angle"], post["axis"], post["origin"])
+    if post.get("scale"):
+        entity.scale(post["scale"], post["sorigin"])
     entity.translate(post["t"])
 
 
@@ -276,6 +312,7 @@ def sketch_params(draw, kind: str):
         p["n1"] = draw(st.integers(1, 4))
         p["n2"] = draw(st.integers(1, 4))
         p["aspect"] = draw(st.floats(0.3, 3.0))
+        p["p1"] = draw(grid_corners())
     elif "Spline" in kind:
         shape = draw(st.sampled_from(["circle", "ellipse", "oval", "oval1"]))
         p["shape"] = shape
@@ -286,6 +323,24 @@ def sketch_params(draw, kind: str):
             p["w1"] = draw(st.floats(0.1, 0.5))
             p["w2"] = p["w1"] if shape == "circle" else draw(st.floats(0.1, 0.5))
     return p
+
+
+@st.composite
+def grid_corners(draw):
+    """lower-left corner of a Grid in units of its first side: x and y independent (off the diagonal), either sign"""
+    x = draw(st.floats(0.2, 3.0)) * draw(st.sampled_from([1.0, -1.0]))
+    y = draw(st.floats(0.2, 3.0)) * draw(st.sampled_from([1.0, -1.0]))
+    if abs(x - y) < 0.2:
+        y = -y
+    return [x, y]
+
+
+def sketch_origin(sp: dict) -> np.ndarray:
+    """canonical reference point of a sketch: its centre, for a Grid the lower-left corner handed to the constructor"""
+    if sp["kind"] == "Grid":
+        p1 = sp.get("p1", [0.0, 0.0])
+        return np.array([p1[0] * sp["r"], p1[1] * sp["r"], 0.0])
+    return np.zeros(3)
 
 
 class SketchTruth:
@@ -350,7 +405,8 @@ def make_sketch(p: dict, place):
     elif kind == "Grid":
         w1 = r
         w2 = r * p["aspect"]
-        sk = cb.Grid([0, 0, 0], [w1, w2, 0], p["n1"], p["n2"])
+        x0, y0, _ = sketch_origin(p)
+        sk = cb.Grid([x0, y0, 0], [x0 + w1, y0 + w2, 0], p["n1"], p["n2"])
         place_entity(sk, place)
         t.size = min(w1 / p["n1"], w2 / p["n2"])
         t.points = (p["n1"] + 1) * (p["n2"] + 1)
@@ -832,7 +888,7 @@ def sweep_shape(sketch, sp: dict, q: dict, place):
     """-> (LoftedShape, [layer maps as 4x4 world matrices], [scale of each layer])"""
     M = frame(place)
     n = D(M, Z)
-    c = W(M, [0, 0, 0])
+    c = W(M, sketch_origin(sp))
     r = sp["r"]
     how = q["how"]
     if how == "extrude-amount":
@@ -875,7 +931,7 @@ def build_sketch_shape(sp: dict, q: dict, place) -> Spec:
     s.extra.update(shape=shape, sketch=sketch, truth=truth, maps=maps)
     if q["how"] == "revolve":
         e = D(M, polar(1.0, q["psi"]))
-        s.revolves = [(W(M, [0, 0, 0]) + e * q["bend"] * sketch_extent(sp), np.cross(n, e), q["angle"])]
+        s.revolves = [(W(M, sketch_origin(sp)) + e * q["bend"] * sketch_extent(sp), np.cross(n, e), q["angle"])]
     if sp["kind"] == "Grid":
         s.chop_claimed = False
 
@@ -900,7 +956,7 @@ def stack_maps(sp: dict, q: dict, place) -> List[np.ndarray]:
     """world maps taking the base sketch to layer 0 .. repeats (independent reference for the stack constructors)"""
     M = frame(place)
     n = D(M, Z)
-    c = W(M, [0, 0, 0])
+    c = W(M, sketch_origin(sp))
     r = sp["r"]
     k = q["repeats"]
     how = q["how"]
@@ -924,7 +980,7 @@ def build_stack(sp: dict, q: dict, place) -> Spec:
     sketch, truth = make_sketch(sp, place)
     M = frame(place)
     n = D(M, Z)
-    c = W(M, [0, 0, 0])
+    c = W(M, sketch_origin(sp))
     r = sp["r"]
     k = q["repeats"]
     how = q["how"]
